@@ -17,10 +17,16 @@ Strategies == { [strat |-> "fixed", arities |-> <<>>], [strat |-> "fixed", ariti
                 [strat |-> "minsize", arities |-> <<0>>], [strat |-> "minsize", arities |-> <<3>>] }
 Grind == { [q |-> 28, pow |-> 16], [q |-> 12, pow |-> 16], [q |-> 14, pow |-> 10], [q |-> 3, pow |-> 1] }
 
-Cfgs == { [zk |-> z, strat |-> s.strat, arities |-> s.arities, rate |-> r, cap |-> c, nch |-> n,
+\* row shapes (num_wires / num_routed_wires): "std" 135/80, "wide" 234/120, "narrow" 68/30 (no Poseidon gate:
+\* no hashing and no public inputs), "r60" 135/60 and "r37" 135/37 (fewer routed wires: other slot counts
+\* per gate, other chunking of the partial products and of the lookup polynomials)
+Widths == {"std", "wide", "narrow"}
+ExtraWidths == {"r60", "r37"}
+CfgsOver(W) == { [zk |-> z, strat |-> s.strat, arities |-> s.arities, rate |-> r, cap |-> c, nch |-> n,
            width |-> w, q |-> g.q, pow |-> g.pow, keccak |-> k] :
           z \in BOOLEAN, s \in Strategies, r \in {3, 4}, c \in 0..4, n \in 1..3,
-          w \in {"std", "wide", "narrow"}, g \in Grind, k \in BOOLEAN }
+          w \in W, g \in Grind, k \in BOOLEAN }
+Cfgs == CfgsOver(Widths)
 
 \* static admissibility: the quotient degree factor is 8, so rate_bits >= 3; at least one challenge.
 \* Zero-knowledge needs a schedule whose final polynomial does not grow with the degree: every
@@ -60,6 +66,8 @@ ASSUME Std \in Admissibles /\ \A d \in 2..20 : FriAdmissible(Std, d)
 FriTable == { [cfg |-> c, d |-> d, ok |-> FriAdmissible(c, d)] :
               c \in {x \in Admissibles : x.zk = FALSE /\ x.nch = 1 /\ x.width = "std" /\ x.keccak = FALSE /\ x.q = 28}, d \in 2..14 }
 ASSUME PrintT("CFGS " \o ToJson(Admissibles))
+\* the same lattice over the extra row shapes (used by C01 / C02 only)
+ASSUME PrintT("CFGSX " \o ToJson({c \in CfgsOver(ExtraWidths) : StaticAdmissible(c) /\ ~c.zk /\ ~c.keccak}))
 ASSUME PrintT("CLASSES " \o ToJson(ClassVectors))
 ASSUME PrintT("FRITABLE " \o ToJson(FriTable))
 =============================================================================
